@@ -1,8 +1,1232 @@
-//! C09 — not built yet.
+//! C09 — a pulled value stream reproduces the producer's bytes exactly and ends once.
+//!
+//! Real `repe::Server` / `repe::WebSocketServer` with every producer kind registered through
+//! `RouterValueStreamExt`. Stage `raw`: a raw client (oracle.rs frames over TCP, or over a
+//! tokio-tungstenite WebSocket) performs open/next/cancel itself and logs every (chunk, last) pair.
+//! Stage `pullers`: the library pullers (sync Client, AsyncClient, WebSocketClient) on the same grid.
+//! The expected logical bytes are computed independently (`beve::to_vec*` in one shot, or the source
+//! bytes), decompression is done by the harness with the `zstd` crate.
+
+#[cfg(not(feature = "net"))]
 use crate::common::*;
 
+#[cfg(not(feature = "net"))]
 pub fn run(args: &Args) -> Report {
-    let mut rep = Report::new(args, "c09-stub", "stub");
-    rep.inconclusive("check not implemented");
+    let mut rep = Report::new(args, "c09", "needs the net feature");
+    rep.inconclusive("built without the `net` feature");
     rep
+}
+
+#[cfg(feature = "net")]
+#[path = "c09_svs.rs"]
+pub mod svs;
+
+#[cfg(feature = "net")]
+pub use imp::run;
+
+#[cfg(feature = "net")]
+mod imp {
+    use super::svs::{self, NextOut, RawSvs, RawTransport, TcpRaw, WsRaw};
+    use crate::common::*;
+    use repe::value_stream::{
+        Compression, RouterValueStreamExt, StreamOpts, pull_complex_slice, pull_complex_slice_async, pull_consume, pull_consume_async,
+        pull_to_vec, pull_to_vec_async, pull_typed_slice, pull_typed_slice_async, pull_value, pull_value_async,
+    };
+    use repe::{AsyncClient, BodyFormat, Client, Complex, RepeError, Router, Server, WebSocketClient, WebSocketServer};
+    use serde::ser::{Error as _, SerializeStruct};
+    use serde::{Deserialize, Serialize};
+    use serde_json::{Value, json};
+    use std::collections::BTreeMap;
+    use std::io::{self, Read, Write};
+    use std::net::SocketAddr;
+    use std::sync::Arc;
+    use std::sync::mpsc;
+    use std::time::{Duration, Instant};
+
+    // ------------------------------------------------------------------ producer side (harness-owned data)
+
+    #[derive(Clone, Copy, Debug, PartialEq, Eq, Hash)]
+    pub enum Elem {
+        U8,
+        U16,
+        I64,
+        F32,
+        F64,
+    }
+    const ELEMS: [Elem; 5] = [Elem::U8, Elem::F64, Elem::U16, Elem::F32, Elem::I64];
+
+    #[derive(Clone, Copy, Debug, PartialEq, Eq, Hash)]
+    pub enum Kind {
+        Value,
+        Typed(Elem),
+        Complex(Elem),
+        Reader,
+        Writer,
+    }
+
+    impl Kind {
+        fn name(&self) -> String {
+            match self {
+                Kind::Value => "value".into(),
+                Kind::Typed(e) => format!("typed-{e:?}").to_lowercase(),
+                Kind::Complex(e) => format!("complex-{e:?}").to_lowercase(),
+                Kind::Reader => "reader".into(),
+                Kind::Writer => "writer".into(),
+            }
+        }
+        fn class(&self) -> &'static str {
+            match self {
+                Kind::Value => "value",
+                Kind::Typed(_) => "typed",
+                Kind::Complex(_) => "complex",
+                Kind::Reader => "reader",
+                Kind::Writer => "writer",
+            }
+        }
+        fn beve(&self) -> bool {
+            matches!(self, Kind::Value | Kind::Typed(_) | Kind::Complex(_))
+        }
+    }
+
+    /// The resource key: everything the producer needs to build the payload deterministically.
+    #[derive(Clone, Debug, PartialEq, Eq, Hash)]
+    pub struct Spec {
+        /// size parameter (bytes for reader/writer/string pad, elements for arrays)
+        pub p: usize,
+        pub seed: u64,
+        pub compressible: bool,
+        /// producer fails after this many logical bytes (reader/writer) / at the second field (value)
+        pub fail: Option<usize>,
+        pub panic: bool,
+        /// seeded sleeps + short reads/writes on the producer side
+        pub delay: bool,
+        /// value type for the value kind: 0 = String, 1 = Doc
+        pub vt: u8,
+    }
+
+    impl Spec {
+        pub fn res(&self) -> String {
+            format!(
+                "p={};s={};c={};f={};x={};d={};v={}",
+                self.p,
+                self.seed,
+                self.compressible as u8,
+                self.fail.map(|f| f as i64).unwrap_or(-1),
+                self.panic as u8,
+                self.delay as u8,
+                self.vt
+            )
+        }
+        pub fn parse(s: &str) -> Option<Spec> {
+            let mut m = BTreeMap::new();
+            for kv in s.split(';') {
+                let (k, v) = kv.split_once('=')?;
+                m.insert(k, v.parse::<i64>().ok()?);
+            }
+            Some(Spec {
+                p: *m.get("p")? as usize,
+                seed: *m.get("s")? as u64,
+                compressible: *m.get("c")? != 0,
+                fail: match *m.get("f")? {
+                    f if f < 0 => None,
+                    f => Some(f as usize),
+                },
+                panic: *m.get("x")? != 0,
+                delay: *m.get("d")? != 0,
+                vt: *m.get("v")? as u8,
+            })
+        }
+    }
+
+    #[derive(Serialize, Deserialize, Clone, Debug, PartialEq)]
+    pub struct Doc {
+        id: u64,
+        label: String,
+        samples: Vec<f64>,
+        tags: Vec<String>,
+        flag: bool,
+        pad: String,
+    }
+
+    pub enum ValT {
+        S(String),
+        D(Doc),
+        /// serializes `pad`, then fails inside the second field
+        F(String),
+    }
+    struct Boom;
+    impl Serialize for Boom {
+        fn serialize<S: serde::Serializer>(&self, _s: S) -> Result<S::Ok, S::Error> {
+            Err(S::Error::custom("injected serialize failure"))
+        }
+    }
+    impl Serialize for ValT {
+        fn serialize<S: serde::Serializer>(&self, s: S) -> Result<S::Ok, S::Error> {
+            match self {
+                ValT::S(x) => x.serialize(s),
+                ValT::D(d) => d.serialize(s),
+                ValT::F(pad) => {
+                    let mut st = s.serialize_struct("FailDoc", 2)?;
+                    st.serialize_field("pad", pad)?;
+                    st.serialize_field("boom", &Boom)?;
+                    st.end()
+                }
+            }
+        }
+    }
+    #[derive(Serialize)]
+    struct FailDocShape<'a> {
+        pad: &'a str,
+        boom: u8,
+    }
+
+    fn gen_string(seed: u64, p: usize) -> String {
+        let mut r = Rng::new(seed ^ 0x57A1);
+        let raw = r.bytes(p);
+        raw.iter().map(|b| (b'a' + (b % 26)) as char).collect()
+    }
+    fn gen_doc(seed: u64, p: usize) -> Doc {
+        let mut r = Rng::new(seed ^ 0xD0C);
+        Doc {
+            id: seed,
+            label: format!("doc-{seed}"),
+            samples: (0..r.below(5)).map(|_| (r.below(1 << 30) as f64) * 0.5 - 7.0).collect(),
+            tags: (0..r.below(3)).map(|i| format!("t{i}")).collect(),
+            flag: r.coin(),
+            pad: gen_string(seed, p),
+        }
+    }
+    fn make_val(s: &Spec) -> ValT {
+        if s.fail.is_some() {
+            return ValT::F(gen_string(s.seed, s.p));
+        }
+        if s.vt == 0 { ValT::S(gen_string(s.seed, s.p)) } else { ValT::D(gen_doc(s.seed, s.p)) }
+    }
+
+    pub trait Gen: Sized {
+        fn gen_one(r: &mut Rng) -> Self;
+    }
+    impl Gen for u8 {
+        fn gen_one(r: &mut Rng) -> u8 {
+            r.next_u64() as u8
+        }
+    }
+    impl Gen for u16 {
+        fn gen_one(r: &mut Rng) -> u16 {
+            r.next_u64() as u16
+        }
+    }
+    impl Gen for i64 {
+        fn gen_one(r: &mut Rng) -> i64 {
+            r.next_u64() as i64
+        }
+    }
+    impl Gen for f32 {
+        fn gen_one(r: &mut Rng) -> f32 {
+            (r.below(1 << 22) as f32) * 0.25 - 1000.0
+        }
+    }
+    impl Gen for f64 {
+        fn gen_one(r: &mut Rng) -> f64 {
+            (r.below(1 << 50) as f64) * 0.125 - 1.0e9
+        }
+    }
+    fn gen_vec<T: Gen>(seed: u64, p: usize) -> Vec<T> {
+        let mut r = Rng::new(seed ^ 0x7E9D);
+        (0..p).map(|_| T::gen_one(&mut r)).collect()
+    }
+    fn gen_cvec<T: Gen>(seed: u64, p: usize) -> Vec<Complex<T>> {
+        let mut r = Rng::new(seed ^ 0xC0_4B1E);
+        (0..p).map(|_| Complex { re: T::gen_one(&mut r), im: T::gen_one(&mut r) }).collect()
+    }
+
+    /// Producer-side `Read`: the payload, with seeded short reads and sleeps, failing at byte `fail`.
+    struct SrcRead {
+        data: Vec<u8>,
+        pos: usize,
+        fail: Option<usize>,
+        delay: bool,
+        r: Rng,
+    }
+    impl Read for SrcRead {
+        fn read(&mut self, out: &mut [u8]) -> io::Result<usize> {
+            if let Some(k) = self.fail {
+                if self.pos >= k {
+                    return Err(io::Error::other(format!("injected reader failure at byte {k}")));
+                }
+            }
+            let mut lim = self.data.len();
+            if let Some(k) = self.fail {
+                lim = lim.min(k);
+            }
+            let mut n = out.len().min(lim - self.pos);
+            if self.delay && n > 1 {
+                n = 1 + self.r.usize_below(n);
+                if self.r.chance(1, 6) {
+                    std::thread::sleep(Duration::from_micros(self.r.below(400)));
+                }
+            }
+            out[..n].copy_from_slice(&self.data[self.pos..self.pos + n]);
+            self.pos += n;
+            Ok(n)
+        }
+    }
+
+    fn write_body(s: &Spec, w: &mut dyn Write) -> io::Result<()> {
+        let data = svs::payload(s.seed, s.p, s.compressible);
+        let mut r = Rng::new(s.seed ^ 0x3217E);
+        let end = s.fail.map(|k| k.min(data.len())).unwrap_or(data.len());
+        let mut pos = 0;
+        while pos < end {
+            let mut n = end - pos;
+            if s.delay {
+                n = 1 + r.usize_below(n.min(70_000));
+                if r.chance(1, 6) {
+                    std::thread::sleep(Duration::from_micros(r.below(400)));
+                }
+                if r.chance(1, 5) {
+                    w.flush()?;
+                }
+            }
+            w.write_all(&data[pos..pos + n])?;
+            pos += n;
+        }
+        if let Some(k) = s.fail {
+            if s.panic {
+                panic!("injected writer panic at byte {k}");
+            }
+            return Err(io::Error::other(format!("injected writer failure at byte {k}")));
+        }
+        Ok(())
+    }
+
+    type BoxWriter = Box<dyn FnOnce(&mut dyn Write) -> io::Result<()> + Send>;
+
+    fn typed_router<T: repe::BeveTypedSlice + Gen + Send + 'static>(opts: StreamOpts) -> Router {
+        Router::new().with_typed_value_stream(|res: &str| Spec::parse(res).map(|s| gen_vec::<T>(s.seed, s.p)), opts)
+    }
+    fn complex_router<T: repe::BeveTypedSlice + Gen + Send + 'static>(opts: StreamOpts) -> Router {
+        Router::new().with_complex_value_stream(|res: &str| Spec::parse(res).map(|s| gen_cvec::<T>(s.seed, s.p)), opts)
+    }
+
+    fn build_router(kind: Kind, opts: StreamOpts) -> Router {
+        match kind {
+            Kind::Value => Router::new().with_value_stream(|res: &str| Spec::parse(res).map(|s| make_val(&s)), opts),
+            Kind::Typed(Elem::U8) => typed_router::<u8>(opts),
+            Kind::Typed(Elem::U16) => typed_router::<u16>(opts),
+            Kind::Typed(Elem::I64) => typed_router::<i64>(opts),
+            Kind::Typed(Elem::F32) => typed_router::<f32>(opts),
+            Kind::Typed(Elem::F64) => typed_router::<f64>(opts),
+            Kind::Complex(Elem::F64) => complex_router::<f64>(opts),
+            Kind::Complex(_) => complex_router::<f32>(opts),
+            Kind::Reader => Router::new().with_reader_stream(
+                |res: &str| {
+                    Spec::parse(res).map(|s| SrcRead { data: svs::payload(s.seed, s.p, s.compressible), pos: 0, fail: s.fail, delay: s.delay, r: Rng::new(s.seed ^ 0x4EAD) })
+                },
+                opts,
+            ),
+            Kind::Writer => Router::new().with_writer_stream(
+                BodyFormat::RawBinary,
+                |res: &str| Spec::parse(res).map(|s| Box::new(move |w: &mut dyn Write| write_body(&s, w)) as BoxWriter),
+                opts,
+            ),
+        }
+    }
+
+    /// The producer's logical bytes, computed without the streaming serializers.
+    fn logical_bytes(kind: Kind, s: &Spec) -> Vec<u8> {
+        match kind {
+            Kind::Value => match make_val(s) {
+                ValT::F(pad) => beve::to_vec(&FailDocShape { pad: &pad, boom: 0 }).expect("beve"),
+                v => beve::to_vec(&v).expect("beve"),
+            },
+            Kind::Typed(Elem::U8) => beve::to_vec_typed_slice(&gen_vec::<u8>(s.seed, s.p)),
+            Kind::Typed(Elem::U16) => beve::to_vec_typed_slice(&gen_vec::<u16>(s.seed, s.p)),
+            Kind::Typed(Elem::I64) => beve::to_vec_typed_slice(&gen_vec::<i64>(s.seed, s.p)),
+            Kind::Typed(Elem::F32) => beve::to_vec_typed_slice(&gen_vec::<f32>(s.seed, s.p)),
+            Kind::Typed(Elem::F64) => beve::to_vec_typed_slice(&gen_vec::<f64>(s.seed, s.p)),
+            Kind::Complex(Elem::F64) => beve::to_vec_complex_slice(&gen_cvec::<f64>(s.seed, s.p)),
+            Kind::Complex(_) => beve::to_vec_complex_slice(&gen_cvec::<f32>(s.seed, s.p)),
+            Kind::Reader | Kind::Writer => svs::payload(s.seed, s.p, s.compressible),
+        }
+    }
+
+    fn elem_size(e: Elem) -> usize {
+        match e {
+            Elem::U8 => 1,
+            Elem::U16 => 2,
+            Elem::F32 => 4,
+            Elem::I64 | Elem::F64 => 8,
+        }
+    }
+
+    /// Choose the size parameter so the stream's *wire* length (logical for none, compressed for zstd
+    /// where that is controllable) lands on `target` as closely as the kind allows.
+    fn param_for(kind: Kind, zstd: bool, target: usize, proto: &Spec) -> usize {
+        let len_of = |p: usize| -> usize {
+            let mut s = proto.clone();
+            s.p = p;
+            let l = logical_bytes(kind, &s);
+            if zstd && matches!(kind, Kind::Reader | Kind::Writer) && !proto.compressible { svs::zstd_compress(&l).len() } else { l.len() }
+        };
+        let unit = match kind {
+            Kind::Typed(e) => elem_size(e),
+            Kind::Complex(Elem::F64) => 16,
+            Kind::Complex(_) => 8,
+            _ => 1,
+        };
+        let base = len_of(0);
+        if target <= base {
+            return 0;
+        }
+        let mut p = (target - base) / unit;
+        // overhead grows with p (length prefixes, block headers): walk down to the largest p with len <= target
+        let mut guard = 0;
+        while p > 0 && len_of(p) > target && guard < 40 {
+            let over = len_of(p) - target;
+            p -= (over / unit).max(1).min(p);
+            guard += 1;
+        }
+        p
+    }
+
+    // ------------------------------------------------------------------ servers
+
+    #[derive(Clone, Copy, Debug, PartialEq, Eq, Hash)]
+    pub enum Tr {
+        Tcp,
+        Ws,
+    }
+
+    #[derive(Clone, Debug, Hash, PartialEq, Eq)]
+    pub struct Cfg {
+        tr: Tr,
+        kind: Kind,
+        chunk: usize,
+        depth: usize,
+        zstd: bool,
+    }
+    impl Cfg {
+        fn opts(&self) -> StreamOpts {
+            StreamOpts { chunk_bytes: self.chunk, compression: if self.zstd { Compression::Zstd } else { Compression::None }, zstd_level: 3, session_depth: self.depth }
+        }
+        fn json(&self) -> Value {
+            json!({"transport": format!("{:?}", self.tr), "kind": self.kind.name(), "chunk_bytes": self.chunk, "session_depth": self.depth, "zstd": self.zstd})
+        }
+    }
+
+    struct Srv {
+        addr: SocketAddr,
+        ws_task: Option<tokio::task::JoinHandle<()>>,
+    }
+    impl Drop for Srv {
+        fn drop(&mut self) {
+            if let Some(t) = self.ws_task.take() {
+                t.abort();
+            }
+        }
+    }
+
+    fn start_server(cfg: &Cfg, rt: &Arc<tokio::runtime::Runtime>) -> Result<Srv, String> {
+        let router = build_router(cfg.kind, cfg.opts());
+        match cfg.tr {
+            Tr::Tcp => {
+                let server = Server::new(router);
+                let l = server.listen("127.0.0.1:0").map_err(|e| format!("bind: {e}"))?;
+                let addr = l.local_addr().map_err(|e| e.to_string())?;
+                std::thread::Builder::new().stack_size(256 << 10).spawn(move || {
+                    let _ = server.serve(l);
+                }).map_err(|e| format!("spawn: {e}"))?;
+                Ok(Srv { addr, ws_task: None })
+            }
+            Tr::Ws => {
+                let l = rt.block_on(WebSocketServer::listen("127.0.0.1:0")).map_err(|e| format!("ws bind: {e}"))?;
+                let addr = l.local_addr().map_err(|e| e.to_string())?;
+                let t = rt.spawn(async move {
+                    let _ = WebSocketServer::new(router).serve_listener(l, "/repe").await;
+                });
+                Ok(Srv { addr, ws_task: Some(t) })
+            }
+        }
+    }
+
+    // ------------------------------------------------------------------ accumulation across worker threads
+
+    #[derive(Default)]
+    struct Acc {
+        evals: u64,
+        distinct: Vec<u64>,
+        viol: Vec<(String, String, Value)>,
+        counts: BTreeMap<String, u64>,
+        inconclusive: Vec<String>,
+        samples: Vec<Value>,
+    }
+    impl Acc {
+        fn count(&mut self, k: &str, n: u64) {
+            *self.counts.entry(k.to_string()).or_insert(0) += n;
+        }
+        fn violation(&mut self, sig: String, detail: String, replay: Value) {
+            if self.viol.len() < 200 {
+                self.viol.push((sig, detail, replay));
+            }
+        }
+        fn merge_into(self, rep: &mut Report) {
+            rep.evaluations += self.evals;
+            for d in self.distinct {
+                rep.distinct(&d);
+            }
+            for (k, v) in self.counts {
+                rep.count(&k, v);
+            }
+            for (s, d, r) in self.viol {
+                rep.violation(s, d, r);
+            }
+            for i in self.inconclusive {
+                rep.inconclusive(i);
+            }
+            for s in self.samples {
+                rep.sample(s);
+            }
+        }
+    }
+
+    // ------------------------------------------------------------------ the grid
+
+    const CHUNKS: [usize; 8] = [1, 2, 3, 7, 64, 4096, 65536, 1 << 20];
+
+    fn kmax(chunk: usize, thorough: bool) -> usize {
+        match (chunk, thorough) {
+            (c, _) if c <= 64 => 5,
+            (4096, false) => 3,
+            (4096, true) => 5,
+            (65536, false) => 2,
+            (65536, true) => 5,
+            (_, false) => 1,
+            (_, true) => 2,
+        }
+    }
+
+    fn targets(chunk: usize, thorough: bool) -> Vec<usize> {
+        let mut t = vec![0usize];
+        for k in 1..=kmax(chunk, thorough) {
+            for d in [-1i64, 0, 1] {
+                let v = (k * chunk) as i64 + d;
+                if v >= 0 {
+                    t.push(v as usize);
+                }
+            }
+        }
+        t.sort();
+        t.dedup();
+        t
+    }
+
+    fn grid(args: &Args, all_depths: bool, transports_for: impl Fn(usize, &mut Rng) -> Vec<Tr>) -> Vec<Cfg> {
+        let mut rng = Rng::new(args.seed ^ 0xC09_64D);
+        let mut v = vec![];
+        let mut i = 0usize;
+        for &chunk in &CHUNKS {
+            for zstd in [false, true] {
+                let kinds = [
+                    Kind::Value,
+                    Kind::Typed(ELEMS[(i + args.seed as usize) % 5]),
+                    Kind::Complex(if (i + args.seed as usize) % 2 == 0 { Elem::F32 } else { Elem::F64 }),
+                    Kind::Reader,
+                    Kind::Writer,
+                ];
+                for kind in kinds {
+                    i += 1;
+                    let depths: Vec<usize> = if args.thorough() || all_depths {
+                        (0..=8).collect()
+                    } else {
+                        let mut d = vec![0usize, 1, 2 + rng.usize_below(7)];
+                        if rng.coin() {
+                            d[1] = 1 + rng.usize_below(8);
+                        }
+                        d.dedup();
+                        d
+                    };
+                    for depth in depths {
+                        for tr in transports_for(i + depth, &mut rng) {
+                            v.push(Cfg { tr, kind, chunk, depth, zstd });
+                        }
+                    }
+                }
+            }
+        }
+        v
+    }
+
+    /// Run `work` over the configurations on a pool of detached threads with a wall-clock watchdog.
+    fn run_pool(rep: &mut Report, args: &Args, cfgs: Vec<Cfg>, work: fn(&Cfg, u64, bool, &Arc<tokio::runtime::Runtime>, &mut Acc)) {
+        let rt = Arc::new(tokio::runtime::Builder::new_multi_thread().worker_threads(4).enable_all().build().expect("tokio runtime"));
+        let total = cfgs.len();
+        let queue = Arc::new(std::sync::Mutex::new(cfgs.into_iter().enumerate().collect::<Vec<_>>()));
+        queue.lock().unwrap().reverse();
+        let in_flight = Arc::new(std::sync::Mutex::new(BTreeMap::<usize, String>::new()));
+        let (tx, rx) = mpsc::channel::<Acc>();
+        let nthreads = 12;
+        let thorough = args.thorough();
+        let seed = args.seed;
+        for _ in 0..nthreads {
+            let (queue, tx, rt, in_flight) = (queue.clone(), tx.clone(), rt.clone(), in_flight.clone());
+            std::thread::spawn(move || {
+                loop {
+                    let Some((idx, cfg)) = queue.lock().unwrap().pop() else { break };
+                    in_flight.lock().unwrap().insert(idx, format!("{cfg:?}"));
+                    let mut acc = Acc::default();
+                    let r = catching(|| work(&cfg, seed ^ (idx as u64).wrapping_mul(0x9E37_79B9), thorough, &rt, &mut acc));
+                    if let Err(p) = r {
+                        acc.inconclusive.push(format!("harness panic in {cfg:?}: {p}"));
+                    }
+                    acc.count("configs_run", 1);
+                    in_flight.lock().unwrap().remove(&idx);
+                    if tx.send(acc).is_err() {
+                        break;
+                    }
+                }
+            });
+        }
+        drop(tx);
+        let hb = Heartbeat::start();
+        let wall = Duration::from_secs(if thorough { 440 } else { 40 });
+        let start = Instant::now();
+        let mut done = 0usize;
+        while done < total {
+            let left = wall.saturating_sub(start.elapsed());
+            match rx.recv_timeout(left.max(Duration::from_millis(1))) {
+                Ok(acc) => {
+                    acc.merge_into(rep);
+                    done += 1;
+                }
+                Err(mpsc::RecvTimeoutError::Timeout) => {
+                    let fl: Vec<String> = in_flight.lock().unwrap().values().cloned().collect();
+                    rep.inconclusive(format!(
+                        "wall-clock budget exhausted after {done}/{total} configurations (max machine stall {} ms); in flight: {}",
+                        hb.max_gap_ms(),
+                        trunc(&fl.join(" | "), 600)
+                    ));
+                    break;
+                }
+                Err(mpsc::RecvTimeoutError::Disconnected) => break,
+            }
+        }
+        rep.set("configs_total", json!(total));
+        rep.set("configs_completed", json!(done));
+        // leave the runtime to the process exit: dropping it would wait for blocked tasks
+        std::mem::forget(rt);
+    }
+
+    pub fn run(args: &Args) -> Report {
+        match args.stage.as_str() {
+            "pullers" => run_pullers(args),
+            _ => run_raw(args),
+        }
+    }
+
+    // ================================================================== stage raw
+
+    #[derive(Clone, Debug, PartialEq, Eq, Hash)]
+    enum Scen {
+        Full,
+        CancelAfter { chunks: usize, notify: bool },
+        Fail,
+    }
+
+    /// State of one raw pull.
+    struct Pull {
+        spec: Spec,
+        scen: Scen,
+        expected: Vec<u8>,
+        sid: u64,
+        chunks: Vec<(usize, bool)>,
+        wire: Vec<u8>,
+        finished: Option<End>,
+    }
+    #[derive(Debug, Clone, PartialEq)]
+    enum End {
+        Last,
+        ErrResp(u32, String),
+        Cancelled,
+    }
+
+    fn ctx_json(cfg: &Cfg, p: &Pull) -> Value {
+        json!({"cfg": cfg.json(), "resource": p.spec.res(), "scenario": format!("{:?}", p.scen), "logical_len": p.expected.len(),
+               "chunks": p.chunks.iter().take(40).map(|(l, e)| format!("{l}{}", if *e { "!" } else { "" })).collect::<Vec<_>>(), "chunks_total": p.chunks.len()})
+    }
+
+    fn first_diff(a: &[u8], b: &[u8]) -> usize {
+        a.iter().zip(b.iter()).position(|(x, y)| x != y).unwrap_or(a.len().min(b.len()))
+    }
+
+    /// One `next` for pull `p`. Returns Ok(true) when the pull reached a terminal state.
+    fn step<T: RawTransport>(cl: &mut RawSvs<T>, cfg: &Cfg, p: &mut Pull, acc: &mut Acc) -> Result<bool, String> {
+        if let Scen::CancelAfter { chunks, notify } = p.scen {
+            if p.chunks.len() >= chunks {
+                let ec = cl.cancel(p.sid, notify)?;
+                if ec != 0 {
+                    acc.violation(format!("C09:cancel-refused:{}", cfg.kind.class()), format!("request-form cancel answered ec={ec}"), ctx_json(cfg, p));
+                }
+                p.finished = Some(End::Cancelled);
+                return Ok(true);
+            }
+        }
+        // an upper bound on any legitimate stream: logical bytes, zstd worst-case expansion, one chunk per byte
+        let bound_bytes = p.expected.len() + p.expected.len() / 64 + 1024;
+        match cl.next(p.sid)? {
+            NextOut::ErrResp { ec, msg } => {
+                p.finished = Some(End::ErrResp(ec, msg));
+                Ok(true)
+            }
+            NextOut::Chunk { bytes, last, query } => {
+                acc.count("chunks_observed", 1);
+                if query.len() != 1 || query[0] > 1 {
+                    acc.violation(
+                        format!("C09:last-flag-encoding:{}", cfg.kind.class()),
+                        format!("chunk response query is {} instead of one byte 0/1", hex_trunc(&query, 16)),
+                        ctx_json(cfg, p),
+                    );
+                }
+                if bytes.len() > cfg.chunk {
+                    acc.count("chunks_larger_than_chunk_bytes", 1);
+                }
+                p.chunks.push((bytes.len(), last));
+                p.wire.extend_from_slice(&bytes);
+                if last {
+                    p.finished = Some(End::Last);
+                    return Ok(true);
+                }
+                if p.wire.len() > bound_bytes || p.chunks.len() > bound_bytes + 16 {
+                    acc.violation(
+                        format!("C09:no-end-marker:{}", cfg.kind.class()),
+                        format!("{} chunks / {} bytes pulled without an end marker from a {}-byte payload", p.chunks.len(), p.wire.len(), p.expected.len()),
+                        ctx_json(cfg, p),
+                    );
+                    p.finished = Some(End::Cancelled);
+                    let _ = cl.cancel(p.sid, false);
+                    return Ok(true);
+                }
+                Ok(false)
+            }
+        }
+    }
+
+    /// After the pull is terminal: judge it and probe `next` past the end / after release.
+    fn judge<T: RawTransport>(cl: &mut RawSvs<T>, cfg: &Cfg, p: &Pull, acc: &mut Acc) -> Result<(), String> {
+        let class = cfg.kind.class();
+        let end = p.finished.clone().unwrap();
+        let (logical, clean) = if cfg.zstd { svs::zstd_decompress_lossy(&p.wire) } else { (p.wire.clone(), true) };
+        let n_last = p.chunks.iter().filter(|c| c.1).count();
+        acc.evals += 1;
+        let wire_mod = if cfg.chunk > 1 { p.wire.len() % cfg.chunk } else { 0 };
+        let residue = if p.wire.is_empty() { 0 } else if wire_mod == 0 { 1 } else if wire_mod == 1 { 2 } else if wire_mod == cfg.chunk - 1 { 3 } else { 4 };
+        acc.distinct.push(hash_of(&("raw", cfg, &p.scen, p.chunks.len().min(7), residue, p.spec.fail.is_some(), p.spec.panic, p.spec.delay, p.spec.compressible)));
+        match (&p.scen, &end) {
+            (Scen::Full, End::Last) => {
+                acc.count("streams_completed", 1);
+                if residue == 1 {
+                    acc.count("streams_with_wire_len_exact_multiple_of_chunk", 1);
+                }
+                if n_last != 1 || !p.chunks.last().map(|c| c.1).unwrap_or(false) {
+                    acc.violation(format!("C09:end-marker-count:{class}"), format!("{n_last} chunks carry the end marker"), ctx_json(cfg, p));
+                }
+                if !clean {
+                    acc.violation(
+                        format!("C09:content-mismatch:zstd-frame-incomplete:{class}"),
+                        format!("the {} pulled bytes are not a complete zstd frame ({} bytes decompressed, {} expected)", p.wire.len(), logical.len(), p.expected.len()),
+                        ctx_json(cfg, p),
+                    );
+                } else if logical != p.expected {
+                    let at = first_diff(&logical, &p.expected);
+                    let what = if logical.len() < p.expected.len() && at == logical.len() {
+                        "truncated"
+                    } else if logical.len() > p.expected.len() && at == p.expected.len() {
+                        "extra-bytes"
+                    } else {
+                        "differs"
+                    };
+                    acc.violation(
+                        format!("C09:content-mismatch:{what}:{class}"),
+                        format!("pulled {} logical bytes, producer emitted {}; first difference at byte {at}", logical.len(), p.expected.len()),
+                        ctx_json(cfg, p),
+                    );
+                }
+                if p.expected.is_empty() && !cfg.zstd && !(p.chunks.len() == 1 && p.chunks[0] == (0, true)) {
+                    acc.violation(format!("C09:empty-payload-shape:{class}"), format!("empty payload arrived as chunks {:?}", p.chunks), ctx_json(cfg, p));
+                }
+                if p.expected.is_empty() && !cfg.zstd {
+                    acc.count("empty_payload_single_empty_final_chunk", 1);
+                }
+            }
+            (Scen::Full, End::ErrResp(ec, msg)) => {
+                acc.violation(
+                    format!("C09:error-instead-of-content:{class}"),
+                    format!("healthy producer: next answered ec={ec} '{}' after {} chunks", trunc(msg, 120), p.chunks.len()),
+                    ctx_json(cfg, p),
+                );
+            }
+            (Scen::Fail, End::Last) => {
+                acc.violation(
+                    format!("C09:end-marker-after-producer-failure:{class}"),
+                    format!("producer failed (fail={:?}, panic={}) but the stream ended with an end marker after {} bytes", p.spec.fail, p.spec.panic, p.wire.len()),
+                    ctx_json(cfg, p),
+                );
+            }
+            (Scen::Fail, End::ErrResp(..)) => {
+                acc.count("producer_failures_surfaced_as_error", 1);
+                if n_last != 0 {
+                    acc.violation(format!("C09:end-marker-after-producer-failure:{class}"), "an end marker preceded the error".into(), ctx_json(cfg, p));
+                }
+            }
+            (Scen::CancelAfter { .. }, End::Cancelled) => acc.count("streams_cancelled_midway", 1),
+            (Scen::CancelAfter { .. }, End::Last) => acc.count("streams_completed", 1),
+            (s, e) => {
+                if !matches!(e, End::Cancelled) {
+                    acc.violation(format!("C09:unexpected-end:{class}"), format!("scenario {s:?} ended with {e:?}"), ctx_json(cfg, p));
+                }
+            }
+        }
+        // whatever was delivered must be a prefix of what the producer emitted (nothing invented or reordered)
+        if !matches!((&p.scen, &end), (Scen::Full, End::Last)) {
+            let lim = p.spec.fail.filter(|_| !cfg.kind.beve()).unwrap_or(p.expected.len()).min(p.expected.len());
+            if logical.len() > lim || logical[..] != p.expected[..logical.len()] {
+                acc.violation(
+                    format!("C09:delivered-prefix-differs:{class}"),
+                    format!("the {} logical bytes delivered before {end:?} are not a prefix of the producer's first {lim} bytes (first difference at {})", logical.len(), first_diff(&logical, &p.expected)),
+                    ctx_json(cfg, p),
+                );
+            } else {
+                acc.count("partial_deliveries_prefix_checked", 1);
+            }
+        }
+        // pulling past the end / after release is an error
+        for i in 0..2 {
+            match cl.next(p.sid)? {
+                NextOut::ErrResp { .. } => acc.count("next_after_release_rejected", 1),
+                NextOut::Chunk { bytes, last, .. } => {
+                    let when = match end {
+                        End::Last => "end",
+                        End::ErrResp(..) => "failure",
+                        End::Cancelled => "cancel",
+                    };
+                    acc.violation(
+                        format!("C09:next-after-{when}-served:{class}"),
+                        format!("next #{} after {when} returned a chunk of {} bytes (last={last}) instead of an error", i + 1, bytes.len()),
+                        ctx_json(cfg, p),
+                    );
+                    break;
+                }
+            }
+        }
+        Ok(())
+    }
+
+    fn open_pull<T: RawTransport>(cl: &mut RawSvs<T>, cfg: &Cfg, spec: Spec, scen: Scen, acc: &mut Acc) -> Result<Option<Pull>, String> {
+        let expected = logical_bytes(cfg.kind, &spec);
+        match cl.open(&spec.res())? {
+            Err((ec, msg)) => {
+                acc.violation(format!("C09:open-refused:{}", cfg.kind.class()), format!("open answered ec={ec} '{}'", trunc(&msg, 120)), json!({"cfg": cfg.json(), "resource": spec.res()}));
+                Ok(None)
+            }
+            Ok(o) => {
+                let want_fmt = if cfg.kind.beve() { svs::FMT_BEVE } else { svs::FMT_RAW };
+                if o.version != 1 || o.compression != cfg.zstd as u8 || o.format != want_fmt {
+                    acc.violation(
+                        format!("C09:open-tag-mismatch:{}", cfg.kind.class()),
+                        format!("open response {o:?} for a producer configured compression={} format={want_fmt}", cfg.zstd as u8),
+                        json!({"cfg": cfg.json(), "resource": spec.res()}),
+                    );
+                }
+                Ok(Some(Pull { spec, scen, expected, sid: o.stream_id, chunks: vec![], wire: vec![], finished: None }))
+            }
+        }
+    }
+
+    fn run_pull<T: RawTransport>(cl: &mut RawSvs<T>, cfg: &Cfg, spec: Spec, scen: Scen, rng: &mut Rng, acc: &mut Acc) -> Result<(), String> {
+        let Some(mut p) = open_pull(cl, cfg, spec, scen, acc)? else { return Ok(()) };
+        loop {
+            if p.spec.delay && rng.chance(1, 5) {
+                std::thread::sleep(Duration::from_micros(rng.below(500)));
+            }
+            if step(cl, cfg, &mut p, acc)? {
+                break;
+            }
+        }
+        if acc.samples.is_empty() && p.chunks.len() > 2 && rng.chance(1, 3) {
+            acc.samples.push(ctx_json(cfg, &p));
+        }
+        judge(cl, cfg, &p, acc)
+    }
+
+    fn raw_config<T: RawTransport>(cl: &mut RawSvs<T>, cfg: &Cfg, seed: u64, thorough: bool, acc: &mut Acc) -> Result<(), String> {
+        let mut rng = Rng::new(seed ^ 0x4A11);
+        let targets = targets(cfg.chunk, thorough);
+        let proto = |rng: &mut Rng, compressible: bool| Spec { p: 0, seed: rng.below(1 << 40), compressible, fail: None, panic: false, delay: rng.chance(1, 3), vt: rng.below(2) as u8 };
+        // (1) the boundary lengths, complete pulls
+        let mut specs = vec![];
+        for &t in &targets {
+            let mut s = proto(&mut rng, false);
+            s.p = param_for(cfg.kind, cfg.zstd, t, &s);
+            specs.push(s.clone());
+            run_pull(cl, cfg, s, Scen::Full, &mut rng, acc)?;
+        }
+        // (1b) compressible payloads whose *logical* length sits on the boundaries
+        if matches!(cfg.kind, Kind::Reader | Kind::Writer) {
+            for _ in 0..3 {
+                let mut s = proto(&mut rng, true);
+                s.p = *rng.pick(&targets) * if cfg.zstd && cfg.chunk < 4096 { 1 + rng.usize_below(40) } else { 1 };
+                run_pull(cl, cfg, s, Scen::Full, &mut rng, acc)?;
+            }
+        }
+        // (2) release midway, then next must be refused
+        for _ in 0..2 {
+            let s = rng.pick(&specs).clone();
+            let total_chunks = logical_bytes(cfg.kind, &s).len() / cfg.chunk + 1;
+            let scen = Scen::CancelAfter { chunks: rng.usize_below(total_chunks.min(12) + 1), notify: rng.coin() };
+            run_pull(cl, cfg, s, scen, &mut rng, acc)?;
+        }
+        // (3) failing producers
+        if matches!(cfg.kind, Kind::Reader | Kind::Writer | Kind::Value) {
+            let c = cfg.chunk;
+            let big = *targets.last().unwrap();
+            let mut ks = vec![0usize, 1, c.saturating_sub(1), c, c + 1, big.saturating_sub(1), big];
+            ks.retain(|k| *k <= big);
+            ks.sort();
+            ks.dedup();
+            let n = if thorough { ks.len() } else { 3.min(ks.len()) };
+            rng.shuffle(&mut ks);
+            for &k in ks.iter().take(n) {
+                let cz = rng.coin();
+                let mut s = proto(&mut rng, cz);
+                s.p = if cfg.kind == Kind::Value { k } else { big };
+                s.fail = Some(k);
+                s.panic = cfg.kind == Kind::Writer && rng.chance(1, 3);
+                s.vt = 0;
+                run_pull(cl, cfg, s, Scen::Fail, &mut rng, acc)?;
+            }
+        }
+        // (4) two streams interleaved on one connection
+        if specs.len() >= 2 {
+            let a = rng.pick(&specs).clone();
+            let mut b = rng.pick(&specs).clone();
+            b.seed ^= 0x55;
+            let (Some(mut pa), Some(mut pb)) = (open_pull(cl, cfg, a, Scen::Full, acc)?, open_pull(cl, cfg, b, Scen::Full, acc)?) else { return Ok(()) };
+            if pa.sid == pb.sid {
+                acc.violation(format!("C09:duplicate-stream-id:{}", cfg.kind.class()), format!("two opens returned stream_id {}", pa.sid), ctx_json(cfg, &pa));
+            }
+            while pa.finished.is_none() || pb.finished.is_none() {
+                let pick_a = if pa.finished.is_some() { false } else if pb.finished.is_some() { true } else { rng.coin() };
+                if pick_a {
+                    step(cl, cfg, &mut pa, acc)?;
+                } else {
+                    step(cl, cfg, &mut pb, acc)?;
+                }
+            }
+            acc.count("interleaved_stream_pairs", 1);
+            judge(cl, cfg, &pa, acc)?;
+            judge(cl, cfg, &pb, acc)?;
+        }
+        Ok(())
+    }
+
+    fn raw_work(cfg: &Cfg, seed: u64, thorough: bool, rt: &Arc<tokio::runtime::Runtime>, acc: &mut Acc) {
+        let srv = match start_server(cfg, rt) {
+            Ok(s) => s,
+            Err(e) => {
+                acc.inconclusive.push(format!("server start: {e}"));
+                return;
+            }
+        };
+        let r = match cfg.tr {
+            Tr::Tcp => match TcpRaw::connect(srv.addr) {
+                Ok(t) => {
+                    let mut cl = RawSvs::new(t);
+                    let r = raw_config(&mut cl, cfg, seed, thorough, acc);
+                    acc.count("frames_sent", cl.frames_sent);
+                    acc.count("frames_received", cl.frames_received);
+                    r
+                }
+                Err(e) => Err(e),
+            },
+            Tr::Ws => match WsRaw::connect(rt.clone(), &format!("ws://{}/repe", srv.addr)) {
+                Ok(t) => {
+                    let mut cl = RawSvs::new(t);
+                    let r = raw_config(&mut cl, cfg, seed, thorough, acc);
+                    acc.count("frames_sent", cl.frames_sent);
+                    acc.count("frames_received", cl.frames_received);
+                    r
+                }
+                Err(e) => Err(e),
+            },
+        };
+        if let Err(e) = r {
+            acc.inconclusive.push(format!("raw client trouble on {cfg:?}: {e}"));
+        }
+    }
+
+    fn run_raw(args: &Args) -> Report {
+        let mut rep = Report::new(
+            args,
+            "c09-raw-grid",
+            "real Server/WebSocketServer, producer kinds value|typed|complex|reader|writer x chunk_bytes {1,2,3,7,64,4096,65536,1MiB} x \
+             wire length {0, k*c-1, k*c, k*c+1} x session_depth 0..8 x {none,zstd}; a raw client does open/next/cancel and logs every \
+             (chunk,last); oracle: concat (zstd-decoded by the harness) == independently computed logical bytes, exactly one end marker \
+             and it is final, empty payload = one empty final chunk, next after end/cancel/failure is an error response, failing \
+             producers never yield an end marker, partial deliveries are prefixes; distinct = (config, scenario, chunk count class, \
+             wire-length residue class, failure/delay/compressibility flags)",
+        );
+        let mut cfgs = grid(args, true, |i, _| if args.thorough() { vec![Tr::Tcp, Tr::Ws] } else if i % 3 == 0 { vec![Tr::Tcp, Tr::Ws] } else { vec![Tr::Tcp] });
+        let mut rng = Rng::new(args.seed ^ 0x0C09_5AFE);
+        rng.shuffle(&mut cfgs);
+        let n = args.budget(cfgs.len() as u64, cfgs.len() as u64) as usize;
+        cfgs.truncate(n.min(cfgs.len()).max(1));
+        quiet_panics(true);
+        run_pool(&mut rep, args, cfgs, raw_work);
+        quiet_panics(false);
+        if rep.get_count("streams_completed") == 0 && rep.inconclusive.is_empty() {
+            rep.inconclusive("no stream was pulled");
+        }
+        rep
+    }
+
+    // ================================================================== stage pullers
+
+    fn err_text(e: &RepeError) -> String {
+        trunc(&e.to_string(), 160)
+    }
+
+    /// Judge one library pull: `got` is the puller's result rendered as logical bytes.
+    fn judge_pull(acc: &mut Acc, cfg: &Cfg, client: &str, puller: &str, spec: &Spec, expected: &[u8], got: Result<Vec<u8>, String>) {
+        acc.evals += 1;
+        acc.distinct.push(hash_of(&("pull", cfg, client, puller, spec.fail.is_some(), spec.panic, spec.delay, (expected.len() / cfg.chunk.max(1)).min(7), expected.len() % cfg.chunk.max(1) <= 1)));
+        let replay = || json!({"cfg": cfg.json(), "client": client, "puller": puller, "resource": spec.res(), "logical_len": expected.len()});
+        let class = cfg.kind.class();
+        match (spec.fail.is_some(), got) {
+            (false, Ok(b)) => {
+                if b == expected {
+                    acc.count("pulls_matching", 1);
+                } else {
+                    let at = first_diff(&b, expected);
+                    acc.violation(
+                        format!("C09:puller-content-mismatch:{puller}:{class}"),
+                        format!("{puller} over {client} returned {} logical bytes, producer emitted {}; first difference at {at}", b.len(), expected.len()),
+                        replay(),
+                    );
+                }
+            }
+            (false, Err(e)) => acc.violation(
+                format!("C09:puller-error-on-healthy-stream:{puller}:{class}"),
+                format!("{puller} over {client} failed on a healthy {}-byte stream: {e}", expected.len()),
+                replay(),
+            ),
+            (true, Ok(b)) => acc.violation(
+                format!("C09:puller-ok-on-producer-failure:{puller}:{class}"),
+                format!("{puller} over {client} returned Ok ({} bytes) although the producer failed at {:?}", b.len(), spec.fail),
+                replay(),
+            ),
+            (true, Err(_)) => acc.count("pulls_failing_as_required", 1),
+        }
+    }
+
+    /// A consumer that reads in seeded small pieces with sleeps (varies relative speed).
+    fn slow_drain(reader: &mut dyn Read, seed: u64, chunk: usize) -> Result<Vec<u8>, RepeError> {
+        let mut r = Rng::new(seed ^ 0x510);
+        let mut out = Vec::new();
+        let mut buf = vec![0u8; (chunk * 2 + 3).min(200_000)];
+        loop {
+            let want = 1 + r.usize_below(buf.len());
+            let n = reader.read(&mut buf[..want])?;
+            if n == 0 {
+                return Ok(out);
+            }
+            out.extend_from_slice(&buf[..n]);
+            if r.chance(1, 12) {
+                std::thread::sleep(Duration::from_micros(r.below(300)));
+            }
+        }
+    }
+
+    fn sync_typed<T: repe::BeveTypedSlice>(c: &Client, res: &str) -> Result<Vec<u8>, String> {
+        pull_typed_slice::<T>(c, res).map(|v| beve::to_vec_typed_slice(&v)).map_err(|e| err_text(&e))
+    }
+    fn sync_complex<T: repe::BeveTypedSlice>(c: &Client, res: &str) -> Result<Vec<u8>, String> {
+        pull_complex_slice::<T>(c, res).map(|v| beve::to_vec_complex_slice(&v)).map_err(|e| err_text(&e))
+    }
+
+    fn sync_pulls(cfg: &Cfg, client: &Client, spec: &Spec, acc: &mut Acc) {
+        let expected = logical_bytes(cfg.kind, spec);
+        let res = spec.res();
+        judge_pull(acc, cfg, "Client", "pull_to_vec", spec, &expected, pull_to_vec(client, &res).map_err(|e| err_text(&e)));
+        let (seed, chunk) = (spec.seed, cfg.chunk);
+        judge_pull(acc, cfg, "Client", "pull_consume", spec, &expected, pull_consume(client, &res, |r| slow_drain(r, seed, chunk)).map_err(|e| err_text(&e)));
+        match cfg.kind {
+            Kind::Value => {
+                let got = if spec.fail.is_some() || spec.vt == 0 {
+                    pull_value::<String>(client, &res).map(|v| beve::to_vec(&v).unwrap()).map_err(|e| err_text(&e))
+                } else {
+                    pull_value::<Doc>(client, &res).map(|v| beve::to_vec(&v).unwrap()).map_err(|e| err_text(&e))
+                };
+                judge_pull(acc, cfg, "Client", "pull_value", spec, &expected, got);
+            }
+            Kind::Typed(e) => {
+                let got = match e {
+                    Elem::U8 => sync_typed::<u8>(client, &res),
+                    Elem::U16 => sync_typed::<u16>(client, &res),
+                    Elem::I64 => sync_typed::<i64>(client, &res),
+                    Elem::F32 => sync_typed::<f32>(client, &res),
+                    Elem::F64 => sync_typed::<f64>(client, &res),
+                };
+                judge_pull(acc, cfg, "Client", "pull_typed_slice", spec, &expected, got);
+            }
+            Kind::Complex(e) => {
+                let got = if e == Elem::F64 { sync_complex::<f64>(client, &res) } else { sync_complex::<f32>(client, &res) };
+                judge_pull(acc, cfg, "Client", "pull_complex_slice", spec, &expected, got);
+            }
+            _ => {}
+        }
+    }
+
+    async fn async_typed<T: repe::BeveTypedSlice + Send + 'static, C: repe::value_stream::AsyncSvsClient>(c: &C, res: &str) -> Result<Vec<u8>, String> {
+        pull_typed_slice_async::<T, C>(c, res).await.map(|v| beve::to_vec_typed_slice(&v)).map_err(|e| err_text(&e))
+    }
+    async fn async_complex<T: repe::BeveTypedSlice + Send + 'static, C: repe::value_stream::AsyncSvsClient>(c: &C, res: &str) -> Result<Vec<u8>, String> {
+        pull_complex_slice_async::<T, C>(c, res).await.map(|v| beve::to_vec_complex_slice(&v)).map_err(|e| err_text(&e))
+    }
+
+    async fn async_pulls<C: repe::value_stream::AsyncSvsClient>(cfg: &Cfg, cname: &str, client: &C, spec: &Spec, acc: &mut Acc) {
+        let expected = logical_bytes(cfg.kind, spec);
+        let res = spec.res();
+        judge_pull(acc, cfg, cname, "pull_to_vec_async", spec, &expected, pull_to_vec_async(client, &res).await.map_err(|e| err_text(&e)));
+        let (seed, chunk) = (spec.seed, cfg.chunk);
+        let got = pull_consume_async(client, &res, move |mut r| slow_drain(&mut *r, seed, chunk)).await.map_err(|e| err_text(&e));
+        judge_pull(acc, cfg, cname, "pull_consume_async", spec, &expected, got);
+        match cfg.kind {
+            Kind::Value => {
+                let got = if spec.fail.is_some() || spec.vt == 0 {
+                    pull_value_async::<String, C>(client, &res).await.map(|v| beve::to_vec(&v).unwrap()).map_err(|e| err_text(&e))
+                } else {
+                    pull_value_async::<Doc, C>(client, &res).await.map(|v| beve::to_vec(&v).unwrap()).map_err(|e| err_text(&e))
+                };
+                judge_pull(acc, cfg, cname, "pull_value_async", spec, &expected, got);
+            }
+            Kind::Typed(e) => {
+                let got = match e {
+                    Elem::U8 => async_typed::<u8, C>(client, &res).await,
+                    Elem::U16 => async_typed::<u16, C>(client, &res).await,
+                    Elem::I64 => async_typed::<i64, C>(client, &res).await,
+                    Elem::F32 => async_typed::<f32, C>(client, &res).await,
+                    Elem::F64 => async_typed::<f64, C>(client, &res).await,
+                };
+                judge_pull(acc, cfg, cname, "pull_typed_slice_async", spec, &expected, got);
+            }
+            Kind::Complex(e) => {
+                let got = if e == Elem::F64 { async_complex::<f64, C>(client, &res).await } else { async_complex::<f32, C>(client, &res).await };
+                judge_pull(acc, cfg, cname, "pull_complex_slice_async", spec, &expected, got);
+            }
+            _ => {}
+        }
+    }
+
+    /// The specs pulled for one configuration: boundary lengths plus failing producers.
+    fn puller_specs(cfg: &Cfg, seed: u64, thorough: bool) -> Vec<Spec> {
+        let mut rng = Rng::new(seed ^ 0x9011);
+        let targets = targets(cfg.chunk, thorough);
+        let mut specs = vec![];
+        for &t in &targets {
+            let mut s = Spec { p: 0, seed: rng.below(1 << 40), compressible: false, fail: None, panic: false, delay: rng.chance(1, 3), vt: rng.below(2) as u8 };
+            s.p = param_for(cfg.kind, cfg.zstd, t, &s);
+            specs.push(s);
+        }
+        if matches!(cfg.kind, Kind::Reader | Kind::Writer | Kind::Value) {
+            let big = *targets.last().unwrap();
+            for k in [0usize, cfg.chunk.min(big), big.saturating_sub(1)] {
+                let mut s = Spec { p: big, seed: rng.below(1 << 40), compressible: rng.coin(), fail: Some(k), panic: cfg.kind == Kind::Writer && rng.chance(1, 3), delay: rng.coin(), vt: 0 };
+                if cfg.kind == Kind::Value {
+                    s.p = k;
+                }
+                specs.push(s);
+            }
+        }
+        specs
+    }
+
+    /// which client drives the pull is folded into the transport: Tcp => Client and AsyncClient alternate
+    fn pullers_work(cfg: &Cfg, seed: u64, thorough: bool, rt: &Arc<tokio::runtime::Runtime>, acc: &mut Acc) {
+        let srv = match start_server(cfg, rt) {
+            Ok(s) => s,
+            Err(e) => {
+                acc.inconclusive.push(format!("server start: {e}"));
+                return;
+            }
+        };
+        let specs = puller_specs(cfg, seed, thorough);
+        let use_async = seed & 1 == 1 || thorough;
+        let use_sync = seed & 1 == 0 || thorough;
+        match cfg.tr {
+            Tr::Tcp => {
+                if use_sync {
+                    match Client::connect(srv.addr) {
+                        Ok(client) => {
+                            for s in &specs {
+                                sync_pulls(cfg, &client, s, acc);
+                            }
+                            acc.count("configs_sync_client", 1);
+                        }
+                        Err(e) => acc.inconclusive.push(format!("Client::connect: {e}")),
+                    }
+                }
+                if use_async {
+                    let addr = srv.addr;
+                    rt.block_on(async {
+                        match AsyncClient::connect(addr).await {
+                            Ok(client) => {
+                                for s in &specs {
+                                    async_pulls(cfg, "AsyncClient", &client, s, acc).await;
+                                }
+                                acc.count("configs_async_client", 1);
+                            }
+                            Err(e) => acc.inconclusive.push(format!("AsyncClient::connect: {e}")),
+                        }
+                    });
+                }
+            }
+            Tr::Ws => {
+                let url = format!("ws://{}/repe", srv.addr);
+                rt.block_on(async {
+                    match WebSocketClient::connect(&url).await {
+                        Ok(client) => {
+                            for s in &specs {
+                                async_pulls(cfg, "WebSocketClient", &client, s, acc).await;
+                            }
+                            acc.count("configs_websocket_client", 1);
+                        }
+                        Err(e) => acc.inconclusive.push(format!("WebSocketClient::connect: {e}")),
+                    }
+                });
+            }
+        }
+    }
+
+    fn run_pullers(args: &Args) -> Report {
+        let mut rep = Report::new(
+            args,
+            "c09-library-pullers",
+            "the same grid pulled with pull_to_vec, pull_consume (seeded slow reader), pull_value, pull_typed_slice, pull_complex_slice over \
+             the sync Client, and their async forms over AsyncClient (sync Server) and WebSocketClient (WebSocketServer); oracle: the \
+             returned bytes/values re-encoded equal the independently computed logical bytes; a failing producer (reader error at byte k, \
+             writer error/panic, serializer error) must give Err from every puller; distinct = (config, client, puller, flags, length class)",
+        );
+        let mut cfgs = grid(args, false, |i, _| if args.thorough() { vec![Tr::Tcp, Tr::Ws] } else if i % 3 == 0 { vec![Tr::Ws] } else { vec![Tr::Tcp] });
+        let mut rng = Rng::new(args.seed ^ 0x0C09_9011);
+        rng.shuffle(&mut cfgs);
+        let n = args.budget(cfgs.len() as u64, cfgs.len() as u64) as usize;
+        cfgs.truncate(n.min(cfgs.len()).max(1));
+        quiet_panics(true);
+        run_pool(&mut rep, args, cfgs, pullers_work);
+        quiet_panics(false);
+        if rep.get_count("pulls_matching") == 0 && rep.inconclusive.is_empty() {
+            rep.inconclusive("no pull completed");
+        }
+        rep
+    }
 }
